@@ -115,6 +115,10 @@ impl Array4 {
         self.estimator.hip_accum()
     }
 
+    pub(super) fn is_out_of_order(&self) -> bool {
+        self.estimator.is_out_of_order()
+    }
+
     /// Set raw 4-bit value in slot
     #[inline]
     fn put_raw(&mut self, slot: u32, value: u8) {
